@@ -290,7 +290,8 @@ Proof.
     exists s3. split.
     + eapply ms_cons; [exact M0|eapply ms_app; [exact E1|exact Hm|reflexivity]|reflexivity].
     + right. eexists. split; [exact Hs|]. destruct Hq as [Hq|Hq]; [left; apply in_fuel_app_r; exact Hq|right; exact Hq].
-  - apply (advance_micros cfg e) in H. destruct H as (s3 & Hm & Hs & Hq).
+  - destruct (advance 4096 cfg s0 (s_now s0 + ms)) as [sa oa] eqn:Ea. inv_pair H.
+    apply (advance_micros cfg e) in Ea. destruct Ea as (s3 & Hm & Hs & Hq).
     exists s3. split; [eapply ms_cons; [exact M0|exact Hm|reflexivity]|].
     right. eexists. split; [exact Hs|exact Hq].
   - change (s_control s0) with (s_control s) in H.
@@ -311,9 +312,9 @@ Proof.
     exists s3. split.
     + eapply ms_cons; [exact M0|eapply ms_app; [exact Hm1|exact Hm|reflexivity]|reflexivity].
     + right. eexists. split; [exact Hs|]. destruct Hq as [Hq|Hq]; [left; apply in_fuel_app_r; exact Hq|right; exact Hq].
-  - inv_pair H. exists (upd_knobs s0 sel op (s_app_iin s0)). split; [|left; reflexivity].
+  - cbv beta iota in H. inv_pair H. exists (upd_knobs s0 sel op (s_app_iin s0)). split; [|left; reflexivity].
     eapply ms_cons; [exact M0|apply ms_one; apply mi_skip; reflexivity|reflexivity].
-  - inv_pair H. exists (upd_knobs s0 (s_sel_status s0) (s_op_status s0) v). split; [|left; reflexivity].
+  - cbv beta iota in H. inv_pair H. exists (upd_knobs s0 (s_sel_status s0) (s_op_status s0) v). split; [|left; reflexivity].
     eapply ms_cons; [exact M0|apply ms_one; apply mi_skip; reflexivity|reflexivity].
   - set (s1 := upd_pending (upd_control (session_reset s0) CIdle) None) in H.
     destruct (idle_loop 8 cfg s1) as [s2 o2] eqn:E2.
